@@ -350,7 +350,7 @@ def replay(r):
             return 1
         print("not reproduced")
         return 0
-    ps = {p.id: p for p in CP.all_fixed()}
+    ps = {p.id: p for p in CP.catalogue()}
     p = ps[info["program"]]
     key, k = info["sensor"], info["k"]
     from .c05 import spec_float
